@@ -449,7 +449,7 @@ package main
 //@   local enc := shouldEncrypt && encryptionKey != nil
 //@   local P := phString(redactedString, pk, gpk, emailShaped(emailRegex, strOf(v)))
 //@   local CT := b64enc(daeadEnc(mkbytes(elems(encryptionKey), off(encryptionKey), len(encryptionKey)), sbytes(strOf(v)), noBytes))
-//@   ensures key-path-frame: unchangedBelowExcept("Arr:Str", base(keyPath))
+//@   ensures key-path-frame: unchangedBelowExcept("Arr:Str", base(keyPath)) && unchangedOutside("Arr:Str", base(keyPath), off(keyPath), off(keyPath) + len(keyPath) - 1)
 //@   ensures string-class-placeholder {C05,C02,C19,C10}: implies(isStr(v), result == v || result == VStr(P) || (enc && result == VStr(CT)))
 //@   ensures string-kept-only-where-allowed {C01}: implies(isStr(v) && result == v, (sel && !named) || polExempt(pk) || v == VStr(P) || (enc && v == VStr(CT)))
 //@   ensures number-zero-or-kept {C05,C03,C04}: implies(isNum(v), result == v || (redactNumbers && result == VF64(f64_0)))
@@ -483,16 +483,19 @@ package main
 
 //@ func redactArrayValuesWithKey
 //@   safety C07
-//@   props C01 C03
+//@   props C01 C03 C14
 //@   assigns Arr:Str, Arr:Val, GoMaps
 //@   allocs Arr:Int, Mem:OMap
 //@   local c := mkCfg(redactedString, redactNumbers, redactBooleans, shouldEncrypt && encryptionKey != nil, mkbytes(elems(encryptionKey), off(encryptionKey), len(encryptionKey)), redactedFieldsRegexp, emailRegex, redactNamespaces)
+//@   local pk := ite(len(keyPath) > 0, keyPath[len(keyPath)-1], parentKey)
 //@   ensures same-slice: result == arr
 //@   loop 1 invariant key-path-frame: unchangedBelowExcept("Arr:Str", base(keyPath))
+//@   loop 1 invariant scalar-path: (len(keyPath) > 0 && scalarPath == keyPath) || (len(keyPath) == 0 && len(scalarPath) == 1 && scalarPath[0] == parentKey && base(scalarPath) != base(keyPath) && base(scalarPath) <= heapTop)
 //@   loop 1 mandatory
-//@   loop 1 each element-relation {C01,C03,C05}: ElemRelA(c, redactFieldNames, isSearchStage, parentKey, item, arr[_idx])
+//@   loop 1 each element-relation {C01,C03,C05}: ElemRelA(c, redactFieldNames, isSearchStage, ite(len(keyPath) > 0, keyPath[len(keyPath)-1], parentKey), item, arr[_idx])
 //@   ensures key-path-frame: unchangedBelowExcept("Arr:Str", base(keyPath))
-//@   defines array-relation {C01,C03,C05,C02}: RelA(c, redactFieldNames, isSearchStage, parentKey, arr) := true
+//@   defines array-relation {C01,C03,C05,C02}: RelA(c, redactFieldNames, isSearchStage, pk, arr) := true
+//@   at_call redactScalarValue scalars-are-matched-against-the-full-key-path {C14}: len(keyPath) == 0 || (arg_keyPath == keyPath && arg_isSelectivelyRedactable == isSelectivelyRedactable)
 
 //@ func redactArrayValues
 //@   safety C07
@@ -502,11 +505,11 @@ package main
 //@   local c := mkCfg(redactedString, redactNumbers, redactBooleans, shouldEncrypt && encryptionKey != nil, mkbytes(elems(encryptionKey), off(encryptionKey), len(encryptionKey)), redactedFieldsRegexp, emailRegex, redactNamespaces)
 //@   ensures same-slice: result == arr
 //@   ensures key-path-frame: unchangedBelowExcept("Arr:Str", base(keyPath))
-//@   defines array-relation {C01,C03,C05,C02}: RelA(c, redactFieldNames, isSearchStage, "", arr) := true
+//@   defines array-relation {C01,C03,C05,C02}: RelA(c, redactFieldNames, isSearchStage, ite(len(keyPath) > 0, keyPath[len(keyPath)-1], ""), arr) := true
 
 //@ func redactQueryValues
 //@   safety C07
-//@   props C01 C03
+//@   props C01 C03 C14
 //@   assigns Arr:Str, Arr:Val, GoMaps
 //@   allocs Arr:Int, Mem:OMap
 //@   requires map: obj != nil
@@ -519,6 +522,9 @@ package main
 //@   ensures fresh-map: result > old(heapTop) && result <= heapTop && !isTable(result)
 //@   ensures key-path-frame: unchangedBelowExcept("Arr:Str", base(keyPath))
 //@   defines level-relation {C01,C03,C05,C02}: RelQ(c, redactFieldNames, isSearchStage, obj, result) := QRel(c, redactFieldNames, isSearchStage, old(om(obj)), om(result))
+//@   at_call redactScalarValue the-key-path-carries-every-name-down-to-the-value {C14}: matchAny(redactedFieldsRegexp, selems(arg_keyPath), off(arg_keyPath), len(arg_keyPath)) == (matchAny(redactedFieldsRegexp, selems(keyPath), off(keyPath), len(keyPath)) || reMatch(redactedFieldsRegexp, k))
+//@   at_call redactQueryValues the-key-path-carries-every-name-down-to-the-value {C14}: matchAny(redactedFieldsRegexp, selems(arg_keyPath), off(arg_keyPath), len(arg_keyPath)) == (matchAny(redactedFieldsRegexp, selems(keyPath), off(keyPath), len(keyPath)) || reMatch(redactedFieldsRegexp, k))
+//@   at_call redactArrayValuesWithKey the-key-path-carries-every-name-down-to-the-value {C14}: matchAny(redactedFieldsRegexp, selems(arg_keyPath), off(arg_keyPath), len(arg_keyPath)) == (matchAny(redactedFieldsRegexp, selems(keyPath), off(keyPath), len(keyPath)) || reMatch(redactedFieldsRegexp, k))
 
 //@ func augmentOp
 //@   safety C07
@@ -570,7 +576,7 @@ package main
 //@   at_call (*orderedmap.OrderedMap).Set@newPipelineMap facet-entry-relation {C01,C03}: key == subK && FacetEntryRel(subV, value)
 //@   ensures key-path-frame: unchangedBelowExcept("Arr:Str", base(keyPath))
 //@   ensures result-kind {C03}: (isMap(stage) && isMap(result) && mapOf(result) > old(heapTop) && mapOf(result) <= heapTop && !isTable(mapOf(result))) || (isArr(stage) && result == stage) || (!isMap(stage) && !isArr(stage) && result == stage)
-//@   defines stage-relation {C01,C03,C05,C12}: RelS(c, redactFieldNames, inSearchStage, stage, result) := (isMap(stage) && isMap(result) && PRel(c, redactFieldNames, inSearchStage, A, om(mapOf(result)))) || (isArr(stage) && result == stage && RelA(c, redactFieldNames, inSearchStage, "", arrOf(stage))) || (!isMap(stage) && !isArr(stage) && result == stage)
+//@   defines stage-relation {C01,C03,C05,C12}: RelS(c, redactFieldNames, inSearchStage, stage, result) := (isMap(stage) && isMap(result) && PRel(c, redactFieldNames, inSearchStage, A, om(mapOf(result)))) || (isArr(stage) && result == stage && RelA(c, redactFieldNames, inSearchStage, ite(len(keyPath) > 0, keyPath[len(keyPath)-1], ""), arrOf(stage))) || (!isMap(stage) && !isArr(stage) && result == stage)
 
 //@ func redactCommand
 //@   safety C07
